@@ -2,6 +2,7 @@
   Driver.lean — executes a harness trace on the model and compares line by line.
 -/
 import SodModel.Trace
+import SodModel.Layout
 namespace Sod
 
 /-! ### the concrete environment of the harness type `T` -/
@@ -111,6 +112,7 @@ structure DState where
       result (a member became unreadable): only checked loosely from then on -/
   tainted : List Nat := []
   logMark : Nat := 0
+  lower : Bool := false
   savedDescs : Option (List FieldDesc) := none
   deriving Inhabited
 
@@ -238,7 +240,8 @@ def DState.exec (d : DState) (op : String) (args : List String) (impl : String) 
   | "open", _ => do
     let live := parseLive ((kv args "live").getD "")
     let hooks ← (kv args "hooks").bind parseBool
-    pure ({ c := { live := live }, hooks := hooks, searches := [] }, { txt := "ok" })
+    let lower := ((kv args "lower").bind parseBool).getD false
+    pure ({ c := { live := live }, hooks := hooks, searches := [], lower := lower }, { txt := "ok" })
   | "live", _ => do     -- the Go struct changed shape (same directory)
     let live := parseLive ((kv args "live").getD "")
     pure ({ d with c := { d.c.reopen with live := live }, searches := [] }, { txt := "ok" })
@@ -466,6 +469,11 @@ def DState.exec (d : DState) (op : String) (args : List String) (impl : String) 
       match d.c.disk.schema with
       | some img => pure ({ d with savedDescs := d.savedDescs <|> some img.descs, c := setDescs (edit img.descs) }, { txt := "ok" })
       | none => pure (d, { txt := "ok" })
+  | "dirname", [] =>
+    -- the collection directory is named after the Go type, snake case when lower-case names are on
+    let n := "main.T".toList
+    let n := if d.lower then Layout.camelToSnake n else n
+    pure (d, { txt := hex (n.map Char.toNat) })
   | "fsops", [] =>
     let delta := d.c.log.drop d.logMark
     let txt := " ".intercalate (delta.map printFsOp)
